@@ -13,7 +13,8 @@ LEVEL = 'fault_enumeration'
 RULE = ('Valid decks from the generators (each first converted to prove it is '
         'accepted), then one fault of the statement\'s list injected at a '
         'drawn applicable site: m=-1 on a TR card used by a surface / a TRCL '
-        '/ a FILL, or in an inline (*)TRCL / (*)FILL; LAT without --lattice, '
+        '/ a FILL, or in an inline (*)TRCL / (*)FILL (also on fixed decks, '
+        'plain and starred, each with its m=1 control); LAT without --lattice, '
         'with too few ranges or a non-trivial supernumerary range; a surface '
         'or macrobody card with a number of entries that the mnemonic does '
         'not admit (one missing / one extra), for every mnemonic '
@@ -526,8 +527,66 @@ def extra(tier, seed, stats):
                                  ({'deck': d, 'fault': group, 'site': 0,
                                    'direct': True, 'argv': argv}, out.detail))
     stats.counts['lattice_option_faults'] = m
-    stats.counts['extra_evaluations'] += n + m
+    # m=-1 in every place a 13-entry transformation can be written
+    q = 0
+    for where in M1_PLACES:
+        for star in (False, True):
+            good = m_minus_one_deck(where, star, 1)
+            base = conv.convert(mr.render(good))
+            if not base.ok:
+                from ..runner import HarnessError
+                raise HarnessError('m=1 control deck (%s) does not convert: %s'
+                                   % (where, base.brief()))
+            d = m_minus_one_deck(where, star, -1)
+            group = 'm=-1:' + where
+            out = judge_fault(mr.render(d), [], group,
+                              'm=-1 %s%s' % ('starred ' if star else '', where),
+                              ['m=-1-fixed:' + where], group)
+            q += 1
+            stats.counts['extra_nontrivial'] += 1
+            if out is not None:
+                found.setdefault(out.bucket,
+                                 ({'deck': d, 'fault': group, 'site': 0,
+                                   'direct': True}, out.detail))
+    stats.counts['m_minus_one_faults'] = q
+    stats.counts['extra_evaluations'] += n + m + q
     return found
+
+
+# (a TR card that nothing refers to is not "used" by the deck: not asserted)
+M1_PLACES = ['tr-card-on-surface', 'tr-card-by-trcl', 'tr-card-by-fill',
+             'inline-trcl', 'inline-fill']
+
+
+def m_minus_one_deck(where, star, m):
+    import math
+    d = md.new_deck()
+    d['surfaces'] = [md.surf(1, 'so', [5.0]), md.surf(2, 'px', [0.4]),
+                     md.surf(3, 's', [0.5, 0.0, 0.0, 1.0])]
+    c_, s_ = math.cos(0.3), math.sin(0.3)
+    B = [c_, s_, 0.0, -s_, c_, 0.0, 0.0, 0.0, 1.0]
+    full = [math.degrees(math.acos(v)) for v in B] if star else B
+    spec = md.trspec([0.3, -0.2, 0.1], full, star=star, n_entries=13, m=m)
+    cont = md.cell(1, 0, None, md.S(-3), imp={'n': 1},
+                   fill={'u': 1, 'tr': None})
+    if where.startswith('tr-card'):
+        d['transforms'].append({'id': 5, 'spec': spec})
+    if where == 'tr-card-on-surface':
+        d['surfaces'][1]['tr'] = 5
+    elif where == 'tr-card-by-trcl':
+        cont['trcl'] = {'num': 5}
+    elif where == 'tr-card-by-fill':
+        cont['fill']['tr'] = {'num': 5}
+    elif where == 'inline-trcl':
+        cont['trcl'] = {'inline': spec}
+    elif where == 'inline-fill':
+        cont['fill']['tr'] = {'inline': spec}
+    d['cells'] = [cont,
+                  md.cell(2, 0, None, md.S(-2), imp={'n': 1}, u=1),
+                  md.cell(3, 0, None, md.S(2), imp={'n': 1}, u=1),
+                  md.cell(4, 0, None, md.AND(md.S(3), md.S(-1)), imp={'n': 1}),
+                  md.cell(5, 0, None, md.S(1), imp={'n': 0})]
+    return d
 
 
 def lattice_deck(ndim):
